@@ -30,7 +30,7 @@ _MAP = 'mapping succeeds exactly when the reference stream parse (asm.yml table)
 _OPS = 'op(i) equals the i-th op of the reference parse for i < len and is None at len'
 KANI_VM_MAPPED = {'crate': 'kani/vm_k2', 'generate': asm_yaml.gen_kani_table, 'kind': 'bounded', 'parallel': 3, 'timeout_s': 2400, 'mem_gb': 20, 'harnesses': [
     _h('proofs::map_len_2', _MAP, 'all byte strings of length 2'),
-    _h('proofs::ops_len_2', _OPS, 'all byte strings of length 2, every index 0..=len'),
+    _h('proofs::ops_len_2', _OPS, 'all byte strings of length 2, every index 0..=len', 'thorough'),
     _h('proofs::map_len_1', _MAP, 'all byte strings of length 1', 'thorough'),
     _h('proofs::map_len_3', _MAP, 'all byte strings of length 3', 'thorough'),
     _h('proofs::map_push_11', _MAP, 'Push opcode + 8 arbitrary immediate bytes + 2 arbitrary bytes', 'thorough'),
@@ -46,7 +46,7 @@ _STR = 'StoreRange: [.., v.., k, addr] stores the k words at memory[addr..addr+k
 _PAN = 'PanicIf: cond 0 continues (operand popped), cond 1 fails with Panic carrying the remaining stack, anything else InvalidPanicIfCondition'
 _EXT = 'Stack::extend appends the yielded words in order'
 _PDA = 'PredicateData pushes predicate_data[slot][ix..ix+len] in order; error and nothing pushed for negative / out-of-range slot, index, length'
-def _vm_ops(names):
+def _vm_ops(names, all_thorough=False):
     allh = {
         'select_len_3': _h('ops::select_len_3', _SEL, '3-word stack, all words symbolic'),
         'select_len_2': _h('ops::select_len_2', _SEL, '2-word stack (too few operands)', 'thorough'),
@@ -60,13 +60,20 @@ def _vm_ops(names):
         'extend_small': _h('ops::extend_small', _EXT, '2-word stack extended by a 3-word array, symbolic'),
         'predicate_data_2_slots': _h('ops::predicate_data_2_slots', _PDA, 'one solution with slots of 2 and 1 words, 4-word stack, all words symbolic'),
     }
-    return {'crate': 'kani/vm_k2', 'generate': asm_yaml.gen_kani_table, 'kind': 'bounded', 'parallel': 6, 'timeout_s': 900, 'mem_gb': 12,
-            'harnesses': [allh[n] for n in names]}
+    hs = [dict(allh[n], tier='thorough') if all_thorough else allh[n] for n in names]
+    return {'crate': 'kani/vm_k2', 'generate': asm_yaml.gen_kani_table, 'kind': 'bounded', 'parallel': 6, 'timeout_s': 900, 'mem_gb': 12, 'harnesses': hs}
 KANI_VM_OPS_ALL = _vm_ops(['select_len_3', 'store_range_4_3', 'panic_if_len_1', 'extend_small', 'predicate_data_2_slots', 'select_len_2', 'select_len_5',
                            'store_range_5_2', 'store_range_2_0', 'panic_if_len_0', 'panic_if_len_4'])
-KANI_VM_OPS_DATA = _vm_ops(['select_len_3', 'store_range_4_3', 'extend_small', 'select_len_2', 'select_len_5', 'store_range_5_2', 'store_range_2_0'])
-KANI_VM_OPS_CF = _vm_ops(['panic_if_len_1', 'panic_if_len_0', 'panic_if_len_4'])
-KANI_VM_OPS_ACCESS = _vm_ops(['predicate_data_2_slots', 'extend_small'])
+# quick tier of C08 / C09 / C12: the same ops are covered by xrun vmops; the symbolic-word Kani harnesses run in C05's quick tier and in every thorough tier
+KANI_VM_OPS_DATA = _vm_ops(['select_len_3', 'store_range_4_3', 'extend_small', 'select_len_2', 'select_len_5', 'store_range_5_2', 'store_range_2_0'], True)
+KANI_VM_OPS_CF = _vm_ops(['panic_if_len_1', 'panic_if_len_0', 'panic_if_len_4'], True)
+KANI_VM_OPS_ACCESS = _vm_ops(['predicate_data_2_slots', 'extend_small'], True)
+_NK = 'next_key(key) == big-endian successor over signed words (MAX wraps to MIN with carry; None iff every word is MAX or the key is empty)'
+KANI_NEXT_KEY = {'crate': 'kani/check_k2', 'kind': 'bounded', 'parallel': 4, 'timeout_s': 900, 'mem_gb': 12, 'harnesses': [
+    _h('proofs::next_key_len_2', _NK, 'keys of exactly 2 words, all words'),
+    _h('proofs::next_key_len_0', _NK, 'the empty key'),
+    _h('proofs::next_key_len_1', _NK, 'keys of exactly 1 word, all words'),
+    _h('proofs::next_key_len_4', _NK, 'keys of exactly 4 words, all words', 'thorough')]}
 KANI_ASM_EFFECTS = {'crate': 'kani/asm_k1', 'generate': asm_yaml.gen_kani_table, 'kind': 'complete', 'harnesses': [
     {'name': 'proofs::effects_api', 'claim': 'bitflags-generated Effects API (empty/all/bits/contains/union/|=/==, flag constants) has its documented bit-level meaning'}]}
 KANI_ASM_ANALYZE = {'crate': 'kani/asm_k1', 'generate': asm_yaml.gen_kani_table, 'kind': 'bounded', 'harnesses': [
@@ -108,6 +115,9 @@ XRUN_HASH = {'suite': 'hash', 'claim': 'contract / solution-set / predicate / pr
                       '(sorted member addresses as a multiset ++ salt; documented predicate layout; program bytes), all helpers agree, encoded size == length',
                       'bound': 'address sequences of length <= 3 (thorough 4) over 6 boundary addresses x 3 salts; predicate shapes <= 9 nodes x <= 34 edges (thorough 20 x 70); '
                                'contracts / sets of <= 3 members drawn with repetition from 3; program lengths around the SHA block size'}
+XRUN_EFFECTS = {'suite': 'effects', 'claim': 'analyze(ops) == union of the effect flags of the ops; bytes_contains_any(to_bytes(ops), set) == (some op - never an immediate byte of a Push - has an effect in the set)',
+                'bound': 'every program of <= 2 ops (a third of those with 3; thorough: all) over 64 ops: the 6 effectful ops, Pop, pushes carrying every effect opcode and the Push opcode at each of the 8 immediate positions; '
+                         'all 64 effect sets for <= 2 ops, 17 sets for 3; k in {0,1,5,6,7,8,12,40} repetitions of one effectful op followed by another'}
 PROPS = {
     'C05': {'level': 'proof', 'verus_units': ['vm_core'], 'xrun': [XRUN_VMOPS], 'kani': [KANI_VM_OPS_ALL],
             'probes': [{'name': 'probe-breadth', 'input': 'ops [Push(2^40), Compute, ComputeEnd], gas limit 1000, op cost 1',
@@ -134,16 +144,19 @@ PROPS = {
     'C04': {'level': 'proof', 'verus_units': ['check_core', 'hash_core'], 'xrun': [XRUN_VALIDATE, XRUN_GRAPH, XRUN_HASH],
             'explanation': 'set validation verdict is a symmetric predicate of the solutions; one mutation per (contract, key) across the set'},
     'C01': {'level': 'other', 'verus_units': ['check_core'], 'xrun': [XRUN_GRAPH],
+            'technique': 'contract-based deductive verification (Verus) of the graph-layer functions; the orchestration (rayon / closures) only by a bounded stand-in: xrun small-scope execution of the real two-pass entry point against the reference semantics',
             'explanation': 'graph layer only: malformed graphs rejected (create_parent_map Ok <==> graph_ok), helpers panic-free on every graph; orchestration not covered'},
-    'C03': {'level': 'other', 'verus_units': ['check_core', 'vm_core'], 'xrun': [XRUN_GRAPH],
+    'C03': {'level': 'other', 'verus_units': ['check_core', 'vm_core'], 'xrun': [XRUN_GRAPH], 'kani': [KANI_NEXT_KEY],
+            'technique': 'contract-based deductive verification (Verus) of routing, overlay and deferral closure; next_key, post-state construction and pass sequencing by bounded stand-ins (Kani, xrun small-scope execution against the reference semantics)',
             'explanation': 'state-read routing (vm_core), overlay fallback for contracts without mutations, key successor (bounded), deferral helpers panic-free; two-pass sequencing not covered'},
     'C13': {'level': 'proof', 'verus_units': ['asm_core'], 'extra': [extras.asm_table], 'kani': [KANI_WORD_BYTES, KANI_ASM_CODEC],
             'explanation': 'the codec the proc-macro generated (macro-expanded text of the working tree) is verified against spec tables generated from asm.yml by an independent YAML reading: '
                            'opcode <-> byte tables, immediates, per-op encode/decode, the byte iterators; sequence-level round trips are Verus lemmas over those tables; pinned-table comparison'},
-    'C15': {'level': 'proof', 'verus_units': ['asm_core'], 'kani': [KANI_ASM_EFFECTS, KANI_ASM_BCA],
+    'C15': {'level': 'proof', 'verus_units': ['asm_core'], 'kani': [KANI_ASM_EFFECTS, KANI_ASM_BCA], 'xrun': [XRUN_EFFECTS],
             'fallback': [{'when': 'effects::analyze', 'group': KANI_ASM_ANALYZE}],
             'explanation': 'analyze(ops) returns exactly the union of the effect flags of the ops (all slices); bytes_contains_any is outside Verus (by_ref/take/for_each) and checked bounded'},
     'C17': {'level': 'other', 'verus_units': ['hash_core'],
+            'technique': 'contract-based deductive verification (Verus) of the sort-permutation / address-impl contracts over an uninterpreted SHA-256; the iterator-chain encoders and the contract address only by a bounded stand-in (xrun small-scope execution against SHA-256 of the documented encodings)',
             'xrun': [XRUN_HASH, XRUN_CODEC],
             'explanation': 'partial: solution-set address: the address slice is sorted in place (a permutation) before hashing and sorted arrangements of a multiset are unique, '
                            'hence order independence (Verus lemmas); from_solution_addrs / from_predicate_addrs / Program and Solution addresses verified against spec functions over an '
@@ -152,11 +165,14 @@ PROPS = {
                             'encode_predicate against the documented layout (iterator chains; Kani harness exhausted memory: 65 GB): assumed', 'postcard serialisation and SHA-256: external',
                             'injectivity of the pre-hash encodings is not stated as an obligation']},
     'C14': {'level': 'other', 'kani': [KANI_VM_MAPPED], 'xrun': [XRUN_BYTECODE],
+            'technique': 'bounded stand-in only (no contract proof reaches try_from_bytes / op / ops): Kani bounded model checking of the real compiled crate + xrun small-scope execution against the parsed list; '
+                         'the generic Vm::exec loop it feeds is Verus-verified (C07/C09)',
             'explanation': 'bounded only (Kani on the real compiled crate): try_from_bytes uses enumerate/by_ref/map and op()/ops() closures with expect - outside Verus. '
                            'Execution equivalence reduces to agreement of op access: Vm::exec is verified generically over OpAccess (C05/C07/C09).',
             'not_covered': ['byte strings longer than the stated bounds', 'FromIterator / push_op (building from operations)', 'owned Vec<u8> container (same generic code path as &[u8])',
                             'execution equivalence itself (parametricity argument, not an obligation)']},
     'C10': {'level': 'other', 'verus_units': ['vm_core'], 'kani': [KANI_VM_JOIN], 'xrun': [XRUN_COMPUTE],
+            'technique': 'contract-based deductive verification (Verus) for the exec-loop handling of compute results; the fork / join itself only by bounded stand-ins (Kani on compute_effects, xrun small-scope execution against the sequential reference)',
             'explanation': 'join step compute_effects bounded by Kani through a cfg(kani) hook; Vm::exec handling of ComputeEnd / compute results verified in Verus (vm_core); '
                            'the fork (rayon, child initial state, depth and breadth checks in `compute`) is NOT covered',
             'not_covered': ['compute(): rayon fork, child initial state, depth check, breadth check', 'thread schedules (C02)', 'memory shapes beyond the stated bounds', 'the combined-memory limit (a harness with a 10239-word parent crashed CBMC); Memory::alloc itself is Verus-verified to fail above the limit']},
